@@ -112,7 +112,7 @@ func (g *Gen) liteRangeFacts(v Term, t types.Type, depth int) []Term {
 	}
 	switch tt := t.Underlying().(type) {
 	case *types.Slice:
-		out = append(out, le(tZero, sLen(v)), le(sLen(v), sCap(v)), le(tZero, sOff(v)))
+		out = append(out, le(tZero, sLen(v)), le(sLen(v), sCap(v)), le(tZero, sOff(v)), le(sCap(v), bigLit(maxInt64)))
 	case *types.Struct:
 		if depth <= 0 || v.Sort == SInt {
 			return out
